@@ -183,7 +183,12 @@ func (ex *Exec) execFunc(fn *ssa.Function, args []Val, bind []Val, st *State, re
 		}
 		res[i] = ex.nameVal("ret", v)
 	}
-	return res, out, ex.name("rr", or(conds...), sBool)
+	rr := ex.name("rr", or(conds...), sBool)
+	if top {
+		// postconditions and the frame are checked once, on the merged exit state
+		fr.checkPost(nil, res, out, rr)
+	}
+	return res, out, rr
 }
 
 func (ex *Exec) nameVal(prefix string, v Val) Val {
@@ -360,6 +365,7 @@ func (fr *frame) execBlock(b *ssa.BasicBlock, st0 *State, reach0 string) {
 		reach = ex.name("reach", or(fconds...), sBool)
 	}
 	fr.setLoopStack(b)
+	ex.curReach = reach
 	isHeader := fr.loops.body[b] != nil
 	// phis
 	phiEntry := map[*ssa.Phi]Val{}
@@ -453,6 +459,7 @@ func (fr *frame) execBlock(b *ssa.BasicBlock, st0 *State, reach0 string) {
 		if _, ok := ins.(*ssa.Phi); ok {
 			continue
 		}
+		ex.curReach = reach
 		done := fr.execInstr(ins, st, &reach)
 		if done {
 			break
